@@ -476,6 +476,28 @@ def MonState.observe (m : MonState) (op : Op) (evs : List String) (post : Option
           m := { m with bound := erase m.bound mc.key }
         | .bound => pure ()
     | _, _ => pure ()
+  | .pickHold .. =>
+    -- stopped between the pool-size check and newSubConn: nothing has happened yet
+    hits := hits ++ ["pool.pick_stopped_before_newSubConn"]
+    if !newScs.isEmpty || !states.isEmpty then fails := fails ++ [("C03", "growth_only_when_saturated")]
+  | .resume _ =>
+    -- the stopped pick runs newSubConn now: it may add a channel only if the pool is (still) below
+    -- maxSize and nothing is reported idle or connecting; the call itself is told to wait
+    if evs.contains "nosc" then hits := hits ++ ["pool.stopped_pick_resumed"]
+    if !newScs.isEmpty then
+      hits := hits ++ ["pool.growth_by_resumed_pick"]
+      match pre with
+      | some v =>
+        let blocked := v.scRefs.any fun p => match lookup m.reported p.1 with
+          | some st => st == .idle || st == .connecting
+          | none => true
+        if blocked || (c.max != 0 && v.scRefs.length ≥ c.max) || !evs.contains "nosc" then
+          fails := fails ++ [("C03", "growth_only_when_saturated")]
+      | none => pure ()
+    else
+      match pre with
+      | some v => if c.max != 0 && v.scRefs.length ≥ c.max then hits := hits ++ ["pool.resumed_pick_refused_at_max"]
+      | none => pure ()
   | _ => pure ()
   -- waiting round-robin picks that returned in this operation
   for e in evs do
